@@ -755,6 +755,7 @@ fn is_retryable_error(err: &RepeError) -> bool {
                 | std::io::ErrorKind::ConnectionAborted
                 | std::io::ErrorKind::NotConnected
                 | std::io::ErrorKind::UnexpectedEof
+                | std::io::ErrorKind::BrokenPipe
                 | std::io::ErrorKind::WouldBlock
                 | std::io::ErrorKind::Interrupted
         ),
